@@ -752,8 +752,9 @@ def two_crate_project():
     return {"name": "two_crates", "crates": [app, VLIB], "main": ["app", "vlib"]}
 
 
-CYCLES_SRC = """// call cycles: the assembly order and every SCC-level analysis (implicits, gas feedback set, may-panic)
-// must not depend on which member of a cycle the database met first
+CYCLES_PLAIN_SRC = """// plain call cycles (no self loops): which member of a cycle gets the `withdraw_gas` depends on the SCC
+// representative, i.e. on which member the database interned first (known finding of C12)
+#[inline(never)]
 fn b_ping(n: felt252) -> felt252 {
     if n == 0 {
         0
@@ -761,6 +762,7 @@ fn b_ping(n: felt252) -> felt252 {
         z_pong(n - 1) + 1
     }
 }
+#[inline(never)]
 fn z_pong(n: felt252) -> felt252 {
     if n == 0 {
         1
@@ -768,6 +770,38 @@ fn z_pong(n: felt252) -> felt252 {
         b_ping(n - 1) + 2
     }
 }
+#[inline(never)]
+fn d_three_a(n: u32) -> u32 {
+    if n == 0 {
+        0
+    } else {
+        y_three_b(n - 1)
+    }
+}
+#[inline(never)]
+fn y_three_b(n: u32) -> u32 {
+    if n < 2 {
+        1
+    } else {
+        e_three_c(n - 2) + d_three_a(n - 1)
+    }
+}
+#[inline(never)]
+fn e_three_c(n: u32) -> u32 {
+    if n == 0 {
+        2
+    } else {
+        d_three_a(n - 1)
+    }
+}
+fn a_main(n: u32) -> felt252 {
+    b_ping(3) + d_three_a(n).into()
+}
+"""
+
+CYCLES_SRC = """// a call cycle whose members use different implicits and are also self-recursive (so both are in the gas
+// feedback set whichever is met first), called from a function with a partial implicit precedence: the order
+// of the implicits and the assembly must not depend on which member the database met first
 #[inline(never)]
 fn x_ping2(n: u32, a: felt252) -> felt252 {
     if n == 0 {
@@ -789,38 +823,15 @@ fn m_pong2(n: u32, a: felt252) -> felt252 {
         x_ping2(n - 1, a + 1)
     }
 }
-fn d_three_a(n: u32) -> u32 {
-    if n == 0 {
-        0
-    } else {
-        y_three_b(n - 1)
-    }
-}
-fn y_three_b(n: u32) -> u32 {
-    if n < 2 {
-        1
-    } else {
-        e_three_c(n - 2) + d_three_a(n - 1)
-    }
-}
-fn e_three_c(n: u32) -> u32 {
-    if n == 0 {
-        2
-    } else {
-        d_three_a(n - 1)
-    }
-}
 #[implicit_precedence(core::RangeCheck)]
 fn a_main(n: u32) -> felt252 {
-    b_ping(3) + x_ping2(n, 5) + d_three_a(n).into()
+    x_ping2(n, 5)
 }
 """
 
 
-def cycles_project():
-    """C12: one crate whose functions form call cycles (plain 2-cycle, 2-cycle with self loops and different
-    implicits per member under a partial implicit precedence, 3-cycle).  Sorted by path the last function
-    (z_pong) and the middle one (e_three_c / m_pong2) - the targets of the prefix queries - are members that the
-    normal assembly order does not meet first."""
-    crate = {"name": "cyc", "edition": "2024_07", "deps": [], "files": {"lib.cairo": CYCLES_SRC}}
-    return {"name": "cycles", "crates": [crate], "main": ["cyc"]}
+def cycles_project(plain=False):
+    """C12: one crate whose functions form call cycles.  Sorted by path, the targets of the prefix queries (the
+    last function / the middle one) are members that the normal assembly order does not meet first."""
+    crate = {"name": "cyc", "edition": "2024_07", "deps": [], "files": {"lib.cairo": CYCLES_PLAIN_SRC if plain else CYCLES_SRC}}
+    return {"name": "cycles_plain" if plain else "cycles", "crates": [crate], "main": ["cyc"]}
